@@ -9,6 +9,9 @@ import (
 	"github.com/canopy-network/canopy/lib/crypto"
 )
 
+// Amnesia makes the Byzantine node's own instance forget its lock at every round boundary (see RunRound).
+var Amnesia = true
+
 // Scenario is one round-level environment decision (explorer (c), Search 1).
 type Scenario struct {
 	Bump bool // committee-preserving root-height bump at every live node before the round
@@ -73,6 +76,12 @@ func (w *World) RunRound(sc Scenario) (ok bool) {
 		for i := range w.Nodes {
 			w.BumpRoot(i, max+1)
 		}
+	}
+	// the Byzantine REPLICA is amnesiac: it forgets its lock at every round boundary, so its instance votes for
+	// whatever is proposed (V=0) or for nothing (V=1). A Byzantine replica that honours its lock votes exactly
+	// when the lock allows it, i.e. it behaves like V=0 in some rounds and like V=1 in the others: both are explored.
+	if Amnesia && w.Cfg.Byz >= 0 && w.Live(w.Cfg.Byz) {
+		w.Nodes[w.Cfg.Byz].BFT.HighQC = nil
 	}
 	rc := &roundCtx{sc: sc, leader: -1}
 	// highest lock among live honest nodes (for E=2)
